@@ -57,7 +57,8 @@ def pairs_for(name, variant=0):
             return [None,
                     {"p1": (1, {0: 1.0, 1: 0.0}), "p2": (0, {0: 1, 1: 0}), "p3": ("b", {"a": 1.0, "b": 0.0})},
                     {"p1": (2, {0: 0.5, 1: 0.5}), "p2": (0, {0: 0.0, 1: 0.0, 2: 1.0}), "p3": (1, {0: False, 1: True})},
-                    {"p1": ("b", {"a": np.float64(1.0), "b": np.float64(0.0)}), "p2": ("a", {"a": 0.25, "b": 0.75}),
+                    # (p1 then p2: a true label that was a key of an earlier prediction and is missing from a later one)
+                    {"p1": ("b", {"a": np.float64(1.0), "b": np.float64(0.0)}), "p2": ("b", {"a": 0.25, "c": 0.75}),
                      "p3": (0, {0: 1e-20, 1: 1.0})}][v]
         if name in MULTI:
             return [None,
